@@ -127,8 +127,22 @@ impl PanicInfo {
     pub fn is_overflow(&self) -> bool {
         self.msg.contains("attempt to") && self.msg.contains("overflow")
     }
+    /// Stable identification of the panic site: file plus the text of the source line (robust
+    /// against line-number shifts caused by unrelated edits); falls back to the line number.
     pub fn site(&self) -> String {
-        let f = self.file.rsplit("/repo/").next().unwrap_or(&self.file);
+        let f = self.file.rsplit("/repo/").next().unwrap_or(&self.file).to_string();
+        // scratch copies used for sensitivity runs live elsewhere: strip everything up to the crate dir
+        let f = match f.find("quinn-proto/").or_else(|| f.find("quinn-udp/")).or_else(|| f.find("quinn/src")) {
+            Some(i) => f[i..].to_string(),
+            None => f,
+        };
+        if let Ok(src) = std::fs::read_to_string(&self.file) {
+            if let Some(l) = src.lines().nth(self.line.saturating_sub(1) as usize) {
+                let t: String = l.split_whitespace().collect::<Vec<_>>().join(" ");
+                let t: String = t.chars().take(70).collect();
+                return format!("{f}:[{t}]");
+            }
+        }
         format!("{}:{}", f, self.line)
     }
 }
@@ -525,6 +539,7 @@ where
                     // the closure; stop counting then).
                     let failed_once = std::cell::Cell::new(false);
                     let first_sig: RefCell<Option<String>> = RefCell::new(None);
+                    let last_fail: RefCell<Option<(String, String)>> = RefCell::new(None);
                     let local_labels: RefCell<BTreeMap<&'static str, u64>> = RefCell::new(BTreeMap::new());
                     let result = runner.run(&strat, |v| {
                         if sh.stop.load(Ordering::Relaxed) && !failed_once.get() {
@@ -552,6 +567,7 @@ where
                                     None => *first_sig.borrow_mut() = Some(sig.clone()),
                                 }
                                 failed_once.set(true);
+                                *last_fail.borrow_mut() = Some((sig.clone(), msg.clone()));
                                 sh.stop.store(true, Ordering::Relaxed);
                                 Err(TestCaseError::fail(format!("{sig}: {msg}")))
                             }
@@ -614,10 +630,17 @@ where
                                 };
                                 let (sig, msg) = match out.verdict {
                                     Verdict::Fail { sig, msg } => (sig, msg),
-                                    other => ("unstable".into(), format!("failure did not reproduce on minimal value: {other:?}")),
+                                    other => {
+                                        // The failure did not reproduce on re-execution of the
+                                        // minimal value (possible only if the code under test is
+                                        // not a pure function of the scenario): report what was
+                                        // observed when it failed.
+                                        let (s0, m0) = last_fail.borrow().clone().unwrap_or(("unstable".into(), String::new()));
+                                        (s0, format!("{m0}\n(note: re-running the shrunk scenario gave {other:?}; the failure is not deterministic)"))
+                                    }
                                 };
                                 let mut fl = failure.lock().unwrap();
-                                if fl.is_none() && sig != "unstable" {
+                                if fl.is_none() {
                                     *fl = Some(Failure {
                                         property: report.opts.prop.clone(),
                                         check: name.to_string(),
@@ -625,8 +648,6 @@ where
                                         msg,
                                         scenario: serde_json::to_value(&v).unwrap_or(Value::Null),
                                     });
-                                } else if fl.is_none() {
-                                    report.note(format!("[{name}] unstable failure (not reported): {msg}"));
                                 }
                             }
                             TestError::Abort(why) => {
